@@ -50,7 +50,7 @@ def run(ctx, R):
                         for flags in itertools.product((False, True), repeat=nf):
                             opt = S.SetV([5] if at_optional else [])
                             ip = A.Interp(C, intrinsics=intr)
-                            got = A.deref(ip.call_fn(f, [5, t, opt, A.VecV(list(flags))]))
+                            got = A.deref(ip.call_by_type(f, [("Vid", 5), ("types::base::Type", t), ("BTreeSet", opt), ("[bool]", A.VecV(list(flags)))]))
                             want = T.TypeV(t.base, t.nullable or at_optional, t.inner)
                             for fl in reversed(flags):
                                 want = T.listof(want, fl)
